@@ -175,8 +175,9 @@ def run(ck, prog, tier, load):
         ck.ob("C01-b.decoder-from-decision", "chunked", var_true(bb, CH), sh, bb, "PayloadDecoder::chunked() only when the chunked decision variable is set")
     for bb, t in len_calls:
         e = sh.op_expr(t["args"][0])
-        ok = root_is(e, CL) and not var_true(bb, CH)
-        ck.ob("C01-b.decoder-from-decision", "length", ok, sh, bb, "PayloadDecoder::length(n) takes n from the accepted Content-Length and is not reachable when chunked was chosen")
+        chunked_false = guarded_by(sh, bb, lambda c, lab: bool(bool_test(c, lab)) and is_local(bool_test(c, lab)[0], CH) and bool_test(c, lab)[1] is False)[0]
+        ok = root_is(e, CL) and not var_true(bb, CH) and chunked_false
+        ck.ob("C01-b.decoder-from-decision", "length", ok, sh, bb, "PayloadDecoder::length(n) takes n from the accepted Content-Length and is reached only on the edge where chunked was NOT chosen (Transfer-Encoding overrides Content-Length, RFC 7230 3.3.3)")
     # Request::decode: TE conflicts
     succ_rets = [bb for bb, e in rdec.ret_exprs() if agg_chain(e)[0][:2] == ["core::result::Result::Ok", "core::option::Option::Some"]]
     ck.anchor("C01-b", len(succ_rets), 1, "success return of Request::decode")
